@@ -152,6 +152,34 @@ def guard_facts(ev, fi, node):
     return facts, subs, applicable
 
 
+def distance_form(rep, prog, fn, r, rvalue, tag):
+    from ..model import expand
+    v = strip(rvalue)
+    # first element of the returned pair
+    first = None
+    for x in walk(v):
+        if x.get("k") in ("InitListExpr", "CXXConstructExpr", "CXXTemporaryObjectExpr") and len([c_ for c_ in x.get("c", []) if isinstance(c_, dict)]) == 2:
+            first = [c_ for c_ in x["c"] if isinstance(c_, dict)][0]
+            break
+        if x.get("k") == "CallExpr" and x.get("callee") == "std::make_pair":
+            first = x["c"][1]
+            break
+    if first is None:
+        raise AnalysisBroken("%s: %s: the returned squared distance was not found" % (prog.loc(fn, r), tag))
+    e = strip(expand(fn, first))
+    while e.get("k") in ("ParenExpr", "ImplicitCastExpr", "MaterializeTemporaryExpr", "CXXBindTemporaryExpr") and len([c_ for c_ in e.get("c", []) if isinstance(c_, dict)]) == 1:
+        e = strip([c_ for c_ in e["c"] if isinstance(c_, dict)][0])
+    if e.get("k") == "CXXMemberCallExpr" and e.get("callee") == "vec3::squared_norm":
+        rep.ok("C05.distance-form", prog, fn, r, "%s: distance = %s" % (tag, short(e, 50)))
+    elif e.get("k") == "CXXMemberCallExpr" and e.get("callee") == "vec3::dot" and render(call_obj(e)).replace(" ", "") == render(call_args(e)[0]).replace(" ", ""):
+        rep.ok("C05.distance-form", prog, fn, r, "%s: distance = x.dot(x)" % tag)
+    elif e.get("k") == "BinaryOperator" and e.get("op") in ("-", "+"):
+        rep.violation("C05.distance-form", prog, fn, r, "%s: squared distance formed by %s" % (tag, "subtraction" if e["op"] == "-" else "a sum of mixed terms"),
+                      "%s returns %s as the squared distance: equal to |p - q|^2 in exact arithmetic, but the terms are of the size of |ap|^2 while their difference is the (much smaller) squared distance to the feature; for points close to the edge the result loses all its digits and can be negative, so it is not the squared distance to the designated point" % (tag, short(e, 70)))
+    else:
+        raise AnalysisBroken("%s: %s: the squared distance %s has a form that is not decided" % (prog.loc(fn, r), tag, short(e, 60)))
+
+
 def region_test(rep, prog, fn, ev, r, tag, comps, p, a, b, c, keys):
     """The region test under which a vertex / edge result is returned, as polynomials in the coordinates, against the Voronoi
     region of that feature.  Only the conjuncts of the test that encloses the result are used (what earlier tests excluded is not
@@ -230,6 +258,7 @@ def declare(rep):
     rep.rule("C05.bary-sum", "the returned barycentric components sum to 1 (identity)", floor=7)
     rep.rule("C05.distance-consistent", "the returned squared distance equals |p - (b0*a+b1*b+b2*c)|^2 for the returned components (identity)", floor=7)
     rep.rule("C05.region-test", "a result that designates a vertex X (resp. a point of edge XY) is returned under exactly the Voronoi-region test of that feature: (Y-X).(P-X) <= 0 and (Z-X).(P-X) <= 0 (resp. (P-X).(Y-X) >= 0, (P-Y).(X-Y) >= 0 and n.((X-P)x(Y-P)) <= 0), decided as polynomial identities in the coordinates", floor=4)
+    rep.rule("C05.distance-form", "every returned squared distance is formed as a sum of squares (squared_norm() of a difference vector): a form such as |ap|^2 - d1*v is the same number in exact arithmetic but cancels catastrophically for points close to the feature - it can even be negative", floor=7)
     rep.rule("C05.translation", "returned distance and components are invariant under a common translation of p,a,b,c", floor=7)
 
 
@@ -306,6 +335,7 @@ def run(rep, prog, tier):
                                   "%s returns component(s) %s whose non-negativity does not follow from its region test (%s): for some points the kernel designates a point outside the triangle (on the extension of an edge) and under-estimates the distance"
                                   % (tag, ", ".join(re_name(b) for b in bad_c), ", ".join("%s %s 0" % (re_name(a), ">=" if s_ == "+" else "<=") for a, s_ in facts.items()) or "no sign condition"))
             region_test(rep, prog, fn, ev, r, tag, comps, p, a, bb, c, keys)
+            distance_form(rep, prog, fn, r, rvalue, tag)
             inv = S.Invariance(ev, lambda n: n.split(".")[0] in {q["name"] for q in fn["params"]})
             bad = None
             if not inv.scalar_weight0(d2):
